@@ -380,11 +380,19 @@ def run_shimdiff(acc):
                    "environ", "num_ctx_switches", "num_threads", "threads", "cpu_times", "memory_info", "memory_full_info",
                    "memory_maps", "open_files", "ppid", "cpu_num"]
 
+        # figures that move on a live system even for a sleeping process (pss depends on who else maps the page, counters
+        # tick): compared structurally (field names, mapping paths), everything else byte for byte
+        volatile = {"memory_maps": lambda v: sorted({m.path for m in v}), "memory_full_info": lambda v: v._fields,
+                    "memory_info": lambda v: v._fields, "cpu_times": lambda v: v._fields, "num_ctx_switches": lambda v: v._fields,
+                    "io_counters": lambda v: v._fields, "cpu_num": lambda v: type(v).__name__,
+                    "threads": lambda v: sorted(t.id for t in v)}
+
         def collect(p):
             out = {}
             for g in getters:
                 try:
-                    out[g] = repr(getattr(p, g)())
+                    v = getattr(p, g)()
+                    out[g] = repr(volatile[g](v)) if g in volatile else repr(v)
                 except Exception as e:  # noqa: BLE001
                     out[g] = "EXC " + type(e).__name__
             return out
